@@ -19,6 +19,9 @@ func (i *interpreter) freshInput(kind string, k types.BasicKind) value {
 			v = i.concreteInputs[n]
 		}
 		i.ps.inputs = append(i.ps.inputs, inputRec{Kind: kind})
+		if k == types.Bool {
+			return v != 0
+		}
 		return concreteOfKind(k, v&maskOf(k))
 	}
 	n := len(i.ps.inputs)
@@ -250,6 +253,20 @@ func (i *interpreter) callVX(fr *frame, fn *ssa.Function, args []value) value {
 		return tuple{uint64(0), false}
 	case "init":
 		return nil
+	case "And":
+		return i.mk(i.tb.And(i.lift(args[0]), i.lift(args[1])), types.Bool)
+	case "Or":
+		return i.mk(i.tb.Or(i.lift(args[0]), i.lift(args[1])), types.Bool)
+	case "Not":
+		return i.mk(i.tb.Not(i.lift(args[0])), types.Bool)
+	case "Implies":
+		return i.mk(i.tb.Implies(i.lift(args[0]), i.lift(args[1])), types.Bool)
+	case "IteInt":
+		return i.mk(i.tb.Ite(i.lift(args[0]), i.lift(args[1]), i.lift(args[2])), types.Int)
+	case "B2I":
+		return i.mk(i.tb.Ite(i.lift(args[0]), i.tb.BVConst(1, 64), i.tb.BVConst(0, 64)), types.Int)
+	case "LoadBatch", "Select", "Reset":
+		return 0
 	}
 	panic("vx: unknown intrinsic " + fn.Name())
 }
